@@ -28,6 +28,11 @@ impl Default for CleanMarkerRecord {
 pub struct CleanMarkerStore {
     path: String,
     store: RwLock<HashMap<String, CleanMarkerRecord>>,
+    // Set (under the `store` write lock) by the final flush of the owning instance. The
+    // persister thread can outlive the instance for a moment (it holds the last strong
+    // reference while it persists); without this it wrote the old instance's markers over
+    // whatever a successor instance had persisted in the meantime.
+    closed: AtomicBool,
 }
 
 impl CleanMarkerStore {
@@ -57,6 +62,7 @@ impl CleanMarkerStore {
         Ok(Self {
             path: path.to_string_lossy().into_owned(),
             store: RwLock::new(map),
+            closed: AtomicBool::new(false),
         })
     }
 
@@ -68,13 +74,35 @@ impl CleanMarkerStore {
     }
 
     pub fn persist_updates(&self, updates: &[(String, CleanMarkerRecord)]) -> std::io::Result<()> {
-        if updates.is_empty() {
+        self.persist_updates_inner(updates, false)
+    }
+
+    /// The last write of the owning instance: afterwards the store ignores every update.
+    pub fn persist_final(&self, updates: &[(String, CleanMarkerRecord)]) -> std::io::Result<()> {
+        self.persist_updates_inner(updates, true)
+    }
+
+    fn persist_updates_inner(
+        &self,
+        updates: &[(String, CleanMarkerRecord)],
+        is_final: bool,
+    ) -> std::io::Result<()> {
+        if updates.is_empty() && !is_final {
             return Ok(());
         }
         let mut guard = self
             .store
             .write()
             .map_err(|_| std::io::Error::new(std::io::ErrorKind::Other, "store lock poisoned"))?;
+        if self.closed.load(Ordering::Acquire) {
+            return Ok(());
+        }
+        if is_final {
+            self.closed.store(true, Ordering::Release);
+            if updates.is_empty() {
+                return Ok(());
+            }
+        }
         for (topic, record) in updates {
             // never let an older snapshot (taken by another thread) overwrite a newer one
             if let Some(existing) = guard.get(topic) {
@@ -160,9 +188,10 @@ pub struct TopicCleanTracker {
 }
 
 impl TopicCleanTracker {
-    /// Write the current markers synchronously. The persister thread writes them
-    /// asynchronously and simply exits once the tracker is gone, so a change made shortly
-    /// before shutdown was never written and the next run reported the old state.
+    /// Write the current markers synchronously, as the last write of this instance. The
+    /// persister thread writes them asynchronously and simply exits once the tracker is gone,
+    /// so a change made shortly before shutdown was never written and the next run reported
+    /// the old state.
     pub fn flush(&self) {
         let snapshot: Vec<(String, CleanMarkerRecord)> = match self.states.read() {
             Ok(guard) => guard
@@ -171,7 +200,7 @@ impl TopicCleanTracker {
                 .collect(),
             Err(_) => Vec::new(),
         };
-        let _ = self.store.persist_updates(&snapshot);
+        let _ = self.store.persist_final(&snapshot);
     }
 }
 
